@@ -632,6 +632,11 @@ def d2u : Op → Except PyErr Op
   | slr s => do pure (slr (← slrD2U s))
   | _ => .error .typeError
 
+/-- `directed2undirected(operator, weighted=False)`: refused for a SparseLR (ValueError), `TypeError` otherwise -/
+def d2uUnweighted : Op → Except PyErr Op
+  | slr _ => .error .valueError
+  | _ => .error .typeError
+
 def b2d : Op → Except PyErr Op
   | slr s => do pure (slr (← slrB2D s))
   | _ => .error .typeError
